@@ -3,7 +3,7 @@
 # configurations) and files the sub-agent's behaviour-preserving patches as /verif/benign/<Cnn>-<letter><k>/
 export GOFLAGS=-mod=mod GOPROXY=off GOSUMDB=off GOTOOLCHAIN=local; unset GOWORK
 src="$1"; letter="$2"; p="$3"
-git -C /repo worktree remove --force /tmp/wtb7/$p 2>/dev/null
+git -C /repo worktree remove --force /tmp/wtb8/$p 2>/dev/null
 for k in 1 2 3; do
   d="$src/$p/$k"
   [ -s "$d/patch.diff" ] || { echo "$p/$k: no patch"; continue; }
